@@ -198,13 +198,21 @@ def nested_case(rng):
     j = rng.randint(-3 * 2 ** e, 3 * 2 ** e)
     lo, w = Fraction(j, 2 ** e), Fraction(1, 2 ** e)
     roots = set()
-    while len(roots) < rng.choice([2, 2, 3]):
+    if rng.random() < 0.45:
+        # a DYADIC root finer than the cell: the bisection of its factor ends in a point that lies strictly inside the
+        # isolating interval of a neighbouring root of another factor (seeded change C06-15)
+        t = rng.choice([2, 3, 3, 4, 5])
+        roots.add(lo + w * Fraction(2 * rng.randint(0, 2 ** (t - 1) - 1) + 1, 2 ** t))
+    nroots = rng.choice([2, 2, 3, 4])
+    while len(roots) < nroots:
         d = rng.choice([3, 5, 7, 9, 11, 13, 6, 10, 12])
         r = lo + w * Fraction(rng.randint(1, d - 1), d)
         if lo < r < lo + w and r.denominator & (r.denominator - 1):      # not dyadic: bisection never hits it
             roots.add(r)
     roots = sorted(roots)
-    mults = rng.sample([1, 2, 3], len(roots)) if rng.random() < 0.8 else [rng.choice([1, 2]) for _ in roots]
+    mults = rng.sample([1, 2, 3, 4], len(roots)) if rng.random() < 0.8 else [rng.choice([1, 2]) for _ in roots]
+    while sum(mults) > 7:
+        mults[mults.index(max(mults))] -= 1
     p = [1]
     for r, m in zip(roots, mults):
         for _ in range(m):
@@ -234,7 +242,7 @@ def generate(rng, tier, corpus_only=False):
         maxdeg = 4 if k < 0.3 else (7 if k < 0.8 else 10)
         cases.append(make_case(rng, maxdeg, rng.choice([4, 6, 8]), budget))
     # structured block, generated after the weighted cases so that their random stream never shifts
-    for i in range(150 if tier == "quick" else 1500):
+    for i in range(250 if tier == "quick" else 2500):
         cases.append(nested_case(rng))
     return cases
 
